@@ -31,7 +31,7 @@ HARNESS = os.path.join(ROOT, "harness")
 ALT_REPO = os.environ.get("GVERIF_REPO")  # testing aid: run the checks against a scratch copy of /repo
 if ALT_REPO:
     # a patched copy of the harness crate whose path dependency points at the scratch repo
-    _alt = os.path.join(ROOT, "harness-alt")
+    _alt = os.path.join(ROOT, "harness-alt", hashlib.sha1(ALT_REPO.encode()).hexdigest()[:10])
     os.makedirs(_alt, exist_ok=True)
     subprocess.run(["rsync", "-a", "--delete", "--exclude", "target", HARNESS + "/", _alt + "/"], check=True)
     _m = open(os.path.join(_alt, "Cargo.toml")).read().replace('path = "/repo"', f'path = "{ALT_REPO}"')
@@ -475,7 +475,7 @@ def shrink(rec, mask, budget=40):
 
 # ----------------------------------------------------------------------------- main flow
 def write_replay(pid, n, payload):
-    d = os.path.join(ROOT, "replays")
+    d = os.path.join(ROOT, "replays-alt" if ALT_REPO else "replays")
     os.makedirs(d, exist_ok=True)
     p = os.path.join(d, f"{pid}-{n}.json")
     with open(p, "w") as f:
@@ -660,7 +660,8 @@ def main():
 
 
 def write_evidence(pid, tier, seed, props, thm_recs, recs, t0, violations, notes=None, extra=None):
-    os.makedirs(os.path.join(ROOT, "evidence"), exist_ok=True)
+    evdir = os.path.join(ROOT, "evidence-alt" if ALT_REPO else "evidence")  # scratch-repo runs never touch the real evidence
+    os.makedirs(evdir, exist_ok=True)
     distinct_nt = len({hashlib.sha1(r["case"].encode()).digest() for r in recs if r["nt"]})
     dist = {}
     for r in recs:
@@ -716,7 +717,7 @@ def write_evidence(pid, tier, seed, props, thm_recs, recs, t0, violations, notes
         "wall_s": round(time.time() - t0, 2),
         "violations": violations,
     }
-    with open(os.path.join(ROOT, "evidence", f"{pid}.json"), "w") as f:
+    with open(os.path.join(evdir, f"{pid}.json"), "w") as f:
         json.dump(ev, f, indent=1)
 
 
